@@ -165,6 +165,15 @@ func lrEval(w *Worker, c *GCase, id string) {
 							bad("bad-token-not-rejected", fmt.Sprintf("the last token cannot continue any sentence but the parser answers %s", st.Res.Out))
 						}
 					}
+					if st.Viable && st.CanNext && st.Tok != g.EOF() {
+						// a token that CAN continue a sentence: an error here is reported before the first bad token
+						// of every non-sentence that begins like this, an accept here swallows whatever follows
+						if st.Res.Out == lrm.Rejected {
+							bad("error-before-the-first-bad-token", "the last token can continue a sentence, yet the parser reports the syntax error here: for every non-sentence with this beginning the error comes at the wrong token")
+						} else if st.Res.Out == lrm.Accepted {
+							bad("accepted-before-end-of-input", "the parser accepts at this token without having seen the end marker: whatever follows is accepted with it")
+						}
+					}
 				}
 			}
 		}
